@@ -362,7 +362,14 @@ def make_class(rnd, i):
             cls = type(cls)  # placeholder, replaced below
             import collections
 
-            cls = collections.namedtuple(f"NT{i}", names, defaults=[odd_default(rnd, j) for j in range(nf - ndef, nf)])
+            dflts = [odd_default(rnd, j) for j in range(nf - ndef, nf)]
+            if rnd.random() < 0.3:
+                # the way a namedtuple was given defaults before it had a parameter for them (_field_defaults knows nothing of it)
+                cls = collections.namedtuple(f"NT{i}", names)
+                cls.__new__.__defaults__ = tuple(dflts)
+                kind = "namedtuple-defaults-on-__new__"
+            else:
+                cls = collections.namedtuple(f"NT{i}", names, defaults=dflts)
         if rnd.random() < 0.3:
             # the usual idiom: a class deriving from the generated tuple class (to add methods / a docstring)
             cls = type(f"NTSub{i}", (cls,), {"__slots__": (), "describe": lambda self: "x"})
